@@ -89,3 +89,80 @@ func startDeadline(out *vh.Result, sec int) {
 		os.Exit(3)
 	}()
 }
+
+// parallel runs job(0..n-1) on `workers` goroutines, each job recording into a Result of its own;
+// these are folded into out in JOB ORDER as soon as all earlier jobs have ended (what the engine
+// reports does not depend on the scheduling, and a deadline still finds the finished jobs' results
+// in out).  A panic inside juno code becomes a keyed divergence of that job (replay input:
+// input(i)); a panic of the harness itself is re-raised on the calling goroutine once all jobs
+// have ended.
+func parallel(out *vh.Result, n, workers int, input func(i int) any, job func(i int, sub *vh.Result)) {
+	subs := make([]*vh.Result, n)
+	done := make([]bool, n)
+	var (
+		wg       sync.WaitGroup
+		mu       sync.Mutex
+		next     int
+		flushed  int
+		harnessP any
+	)
+	for g := 0; g < min(workers, n); g++ {
+		wg.Add(1)
+		go func() {
+			defer wg.Done()
+			for {
+				mu.Lock()
+				i := next
+				next++
+				stop := harnessP != nil
+				mu.Unlock()
+				if i >= n || stop {
+					return
+				}
+				sub := vh.NewResult()
+				func() {
+					defer func() {
+						if r := recover(); r != nil {
+							if fn := junoPanicSite(); fn != "" {
+								sub.Diverge(vh.Divergence{Key: "crash:" + fn, Input: input(i),
+									What: fmt.Sprintf("the real code panicked while the engine drove it: %v in %s", r, fn)})
+								return
+							}
+							mu.Lock()
+							if harnessP == nil {
+								harnessP = r
+							}
+							mu.Unlock()
+						}
+					}()
+					job(i, sub)
+				}()
+				mu.Lock()
+				subs[i], done[i] = sub, true
+				for flushed < n && done[flushed] {
+					merge(out, subs[flushed])
+					flushed++
+				}
+				mu.Unlock()
+			}
+		}()
+	}
+	wg.Wait()
+	if harnessP != nil {
+		panic(harnessP)
+	}
+}
+
+func merge(out *vh.Result, s *vh.Result) {
+	for _, d := range s.Divergences {
+		out.Diverge(d)
+	}
+	for _, x := range s.Samples {
+		out.Sample(x)
+	}
+	for k, v := range s.Stats {
+		if n, ok := v.(int); ok {
+			out.Count(k, n)
+		}
+	}
+}
